@@ -293,10 +293,12 @@ impl Cqueue {
     }
 }
 
-impl Drop for Cqueue {
+impl Cqueue {
     // this would cancel all unfinished select coroutines
     // and wait until all of them return back
-    fn drop(&mut self) {
+    // `unwinding` tells that the owner is leaving by a panic (called from drop):
+    // a panic of a select coroutine that shows up here is not re-raised then
+    fn finish(&self, unwinding: bool) {
         // first cancel all the select coroutines if they are running
         self.selectors
             .lock()
@@ -308,10 +310,6 @@ impl Drop for Cqueue {
                 _ => {}
             });
 
-        // if self.is_panicking {
-        //     return;
-        // }
-
         // run the rest event, with the cancel disabled: a canceled owner would
         // not block in poll but spin here and starve the select coroutines
         let cancel = if crate::coroutine_impl::is_coroutine() {
@@ -322,17 +320,35 @@ impl Drop for Cqueue {
         if let Some(c) = cancel {
             c.disable_cancel();
         }
+        // the panic of a select coroutine must not end the loop: the others
+        // still use the cqueue, keep going until all of them are gone
+        let mut payload = None;
         loop {
-            match self.poll(None) {
-                Ok(_) => {}
-                Err(_e @ PollError::Finished) => break,
-                _ => unreachable!("cqueue drop unreachable"),
+            match panic::catch_unwind(panic::AssertUnwindSafe(|| self.poll(None))) {
+                Ok(Ok(_)) => {}
+                Ok(Err(PollError::Finished)) => break,
+                Ok(Err(_)) => unreachable!("cqueue drop unreachable"),
+                Err(e) => {
+                    payload.get_or_insert(e);
+                }
             }
         }
         if let Some(c) = cancel {
             c.enable_cancel();
         }
         // we are sure that all the coroutines are finished
+        if let Some(e) = payload {
+            if !unwinding {
+                panic::resume_unwind(e);
+            }
+        }
+    }
+}
+
+impl Drop for Cqueue {
+    fn drop(&mut self) {
+        // nothing is left to do after a normal `scope` exit
+        self.finish(true)
     }
 }
 
@@ -352,5 +368,9 @@ where
         total: AtomicUsize::new(0),
         is_panicking: AtomicBool::new(false),
     };
-    f(&cqueue)
+    let ret = f(&cqueue);
+    // wait for the select coroutines outside of any destructor, so that a
+    // panic of one of them can be re-raised here when all of them are gone
+    cqueue.finish(false);
+    ret
 }
